@@ -13,7 +13,8 @@ FAMILIES = {
     'c06_strenum': 'value and 1..2 enumeration members = any strings of fixed small lengths over {a,b,A}; ok iff member',
     'c06_string_none': 'any 3-byte UTF-8 string, no restriction set',
     'c06_option_vec_i32': 'Option<i32> (absent / any value) and Vec<i32> with 0..3 arbitrary items under arbitrary numeric facets: ok iff every present item ok',
-    'c06_option_vec_string': 'Option<String>/Vec<String> with 0..2 items (1-2 bytes UTF-8) under arbitrary minLength/maxLength',
+    'c06_option_string': 'Option<String> absent / any 2-byte UTF-8 string under arbitrary minLength/maxLength',
+    'c06_vec_string': 'Vec<String> with 1..2 items (2- and 1-byte UTF-8) under an arbitrary length facet',
     'c19_check_restrictions': 'probe tag, probe verdict, error byte, restriction set passed or None: all arbitrary',
     'c19_serialize': 'probe tag / result / error byte arbitrary; Serializer never dereferenced (address identity only)',
     'c19_serialize_attributes': '0..2 attributes, probe result arbitrary; vector identity in and out',
@@ -162,7 +163,9 @@ def run_property(prop, mod, harnesses, tier, functions, assumptions, bounds_text
 def c06(tier):
     hs = e1.list_harnesses('c06')
     if tier == 'quick':
-        hs = [h for h in hs if not re.match(r'c06_strnum_(7|8|9|10|11)$', h)]
+        hs = [h for h in hs if not re.match(r'c06_strnum_(5|6|7|8|9|10|11)$', h) and not re.match(r'c06_strlen_(5|6)$', h)]
+    else:
+        hs = [h for h in hs if not re.match(r'c06_strnum_(10|11)$', h)]
     return run_property(
         'C06', 'c06', hs, tier,
         functions=['helpers_content.rs restrictions::<impl CheckRestrictions for i8,u8,i16,u16,i32,u32,i64,u64,f32,f64,bool,String,Option<C>,Vec<C>>::check_restrictions (compiled unmodified by #[path])'],
@@ -172,7 +175,8 @@ def c06(tier):
             'strings are instantiated per concrete byte length; alphabet {ASCII printable, U+00E9, U+20AC} (strlen), {0-9,+,-,a} (strnum), {a,b,A} (enum)',
             'mem::forget of results/Rc to skip drop glue; Kani default checks (overflow, bounds, unwrap) on; unwinding assertions on',
         ],
-        bounds_text='integers: full width, facets any Option<i32>; strings: 0..6 bytes (length facets), 0..%d bytes (numeric text), <=2 bytes x <=2 members (enumeration); Vec <= 3 items. Outside: longer strings, whitespace collapsing, decimal facets.' % (6 if tier == 'quick' else 11))
+        bounds_text='integers: full width, facets any Option<i32>; strings: 0..%d bytes (length facets), 0..%d bytes (numeric text), <=2 bytes x <=2 members (enumeration); Vec <= 3 items. Outside: longer strings, whitespace collapsing, decimal facets.' % ((4, 4) if tier == 'quick' else (6, 9)),
+        per_harness_timeout=300 if tier == 'quick' else 2400)
 
 
 def c19(tier):
